@@ -94,9 +94,9 @@ func checkC20(c *km.Ctx) {
 	r.Assume = []string{"go/types + go/ssa model the source faithfully", "a non-blocking select never blocks the sender"}
 
 	r.Rule("R-C20-1", "every signing call is followed, on its success path, by a publication of exactly the signed bytes that dominates every hand-out of the certificate", 2)
-	r.Rule("R-C20-2", "login / authentication / service-provider events are published at every reference site", 5)
+	r.Rule("R-C20-2", "login / authentication / service-provider events are published at every reference site; every field a publisher fills is read for that type, and each reported string reaches the field it is meant for", 5)
 	r.Rule("R-C20-3", "fan-out never blocks and never skips: sends only inside non-blocking selects, the subscriber loop is left only at its end, subscriber channels are buffered", 2)
-	r.Rule("R-C20-4", "history order and retention: the loader links successive saved events at the oldest end (first saved = newest, matching the saver's newest-first walk) with both links set; loader and expiry use the same retention constant", 2)
+	r.Rule("R-C20-4", "history order and retention: the loader links successive saved events at the oldest end (first saved = newest, matching the saver's newest-first walk) with both links set; loader and expiry use the same retention constant; loader and saver keep each history under its own key", 2)
 
 	// ---------- R-C20-1
 	nSign := 0
